@@ -31,7 +31,13 @@ def random_steps(rng, n, nitems):
         elif r < 0.93:
             body = rng.choice(pvs)
         else:
-            body = "change-preview:" + rng.choice(sorted(preview.TEMPLATES))      # resolved to the command by the driver
+            # another template (with / without {q}, {+}), then edits that keep the cursor on the same line: only the
+            # version counter can tell the render loop that the preview must be refreshed
+            steps.append({"post": "change-preview:" + rng.choice(sorted(preview.TEMPLATES))})      # resolved to the command by the driver
+            if rng.random() < 0.5:
+                steps.append({"until": "pv.display", "soft": True})
+            body = rng.choice(["put(a)", "put(b)", "put(a)+backward-delete-char+put(b)", "toggle", "toggle+toggle", "up+change-query(a)+down",
+                               "change-query(zz)", "toggle+put(a)"])
         steps.append({"post": body})
         r = rng.random()
         if r < 0.45:
@@ -46,8 +52,9 @@ def random_steps(rng, n, nitems):
 
 
 def random_plan(rng, sid):
-    kinds = rng.choice([["endless"], ["instant"], ["endless", "instant", "slow", "incr", "incrlong", "ticking"],
-                        ["endless", "instant"], ["slow", "incr", "instant"], ["ticking", "incrlong", "endless"]])
+    kinds = rng.choice([["endless"], ["instant"], ["endless", "instant", "slow", "mute", "incr", "incrlong", "ticking"],
+                        ["endless", "instant", "mute"], ["slow", "incr", "mute", "instant"], ["ticking", "incrlong", "endless"],
+                        ["instant", "mute"], ["mute", "endless", "instant"]])
     nitems = rng.choice([40, 400, 3000])
     leave = rng.choice(["abort", "abort", "accept", "sigterm"])
     steps = random_steps(rng, rng.randint(5, 22), nitems)
@@ -81,6 +88,27 @@ def directed_plans(sid0, reps):
         if r == 0:
             plans.append(Plan(sid, "PB", ["instant"], 40, [{"until": "pv.display", "n0": 0}, {"post": "toggle-preview"}, {"sleep": 0.2},
                                                            {"post": "up+toggle-preview+down"}], observe=True, leave="abort", label="show-and-move-back")); sid += 1
+        if r == 0:
+            first = {"until": "pv.display", "n0": 0}
+            # the right command runs last but prints nothing / there is nothing to preview: the window must be empty
+            plans.append(Plan(sid, "PB", ["instant", "mute"], 40, [first, {"post": "up"}], label="mute-command")); sid += 1
+            plans.append(Plan(sid, "PA", ["mute", "instant"], 40, [first, {"post": "up"}, {"until": "pv.display", "soft": True}, {"post": "down"}],
+                              label="mute-command")); sid += 1
+            plans.append(Plan(sid, "PD", ["instant"], 40, [first, {"post": "change-query(zz)"}], label="no-match-blank")); sid += 1
+            plans.append(Plan(sid, "PB", ["slow"], 40, [first, {"post": "up+change-query(zz)"}], label="no-match-blank")); sid += 1
+            # template without {q} -> template with {q}, then query edits that leave the same line under the cursor
+            plans.append(Plan(sid, "PB", ["instant"], 40, [first, {"post": "change-preview:PA"}, {"until": "pv.display", "soft": True},
+                                                           {"post": "put(a)"}], label="query-after-change-preview")); sid += 1
+            plans.append(Plan(sid, "PD", ["endless"], 40, [first, {"post": "change-preview:PC"}, {"until": "pv.display", "soft": True},
+                                                           {"post": "up+change-query(b)+down"}, {"sleep": 0.3}, {"post": "put(1)"}],
+                              leave="sigterm", label="query-after-change-preview")); sid += 1
+            # template without {+} -> template with {+}, then toggles that leave the cursor where it is; and back
+            plans.append(Plan(sid, "PD", ["instant"], 40, [first, {"post": "change-preview:PB"}, {"until": "pv.display", "soft": True},
+                                                           {"post": "toggle"}, {"sleep": 0.2}, {"post": "up+toggle+down"}],
+                              label="toggle-after-change-preview")); sid += 1
+            plans.append(Plan(sid, "PA", ["instant"], 40, [first, {"post": "put(a)"}, {"post": "change-preview:PD"}, {"until": "pv.display", "soft": True},
+                                                           {"post": "put(b)"}, {"post": "change-preview:PC"}, {"post": "backward-delete-char"}],
+                              leave="accept", label="query-after-change-preview")); sid += 1
         # no deviation expected: leave while a never-ending command runs and its watcher is in the select
         plans.append(Plan(sid, "PC", ["ticking"], 40, [{"until": "pv.display", "n0": 0}], observe=True, leave=["sigterm", "accept", "abort"][r % 3],
                           label="exit-while-running")); sid += 1
@@ -235,6 +263,8 @@ def run(ctx):
     for e in allev:
         if e["ev"] == "quiet":
             ctx.cov["quiescent_states"][e["state"]] = ctx.cov["quiescent_states"].get(e["state"], 0) + 1
+    ctx.cov["quiescent_with_empty_window"] = sum(1 for e in allev if e["ev"] == "quiet" and e["visible"] and e["pane"] == [])
+    ctx.cov["change_preview_posts"] = sum(1 for sid in results for st in results[sid][0].steps if st.get("post", "").startswith("change-preview:"))
     ctx.cov["exits"] = {}
     for e in allev:
         if e["ev"] == "exit":
